@@ -46,8 +46,38 @@ impl<'src> HInput<'src> for &'src [char] {
     }
 }
 
+pub type PairSlice<'src> = &'src [(char, Sp)];
+pub type MappedSlice<'src> =
+    chumsky::input::MappedInput<char, Sp, PairSlice<'src>, fn(&'src (char, Sp)) -> (&'src char, &'src Sp)>;
+pub type CharStream = chumsky::input::Stream<std::vec::IntoIter<char>>;
+pub type PairStream = chumsky::input::Stream<std::vec::IntoIter<(char, Sp)>>;
+pub type MappedStream = chumsky::input::MappedInput<char, Sp, PairStream, fn((char, Sp)) -> (char, Sp)>;
+
+pub fn proj_pair<'a>(t: &'a (char, Sp)) -> (&'a char, &'a Sp) {
+    (&t.0, &t.1)
+}
+pub fn id_pair(t: (char, Sp)) -> (char, Sp) {
+    t
+}
+
+impl<'src> HInput<'src> for MappedSlice<'src> {
+    fn to_slice<E: HErr<'src, Self>>(_p: BP<'src, Self, E>, _base: usize) -> BP<'src, Self, E> {
+        panic!("harness: to_slice unsupported for this input kind")
+    }
+}
+impl<'src> HInput<'src> for CharStream {
+    fn to_slice<E: HErr<'src, Self>>(_p: BP<'src, Self, E>, _base: usize) -> BP<'src, Self, E> {
+        panic!("harness: to_slice unsupported for this input kind")
+    }
+}
+impl<'src> HInput<'src> for MappedStream {
+    fn to_slice<E: HErr<'src, Self>>(_p: BP<'src, Self, E>, _base: usize) -> BP<'src, Self, E> {
+        panic!("harness: to_slice unsupported for this input kind")
+    }
+}
+
 pub struct Cx<'src, I: HInput<'src>, E: HErr<'src, I>> {
-    pub defs: Vec<Rec<'src, I, E>>,
+    pub defs: Vec<BP<'src, I, E>>,
     pub base: usize,
 }
 
@@ -344,7 +374,7 @@ pub fn build<'src, I: HInput<'src>, E: HErr<'src, I>>(g: &G, cx: &Cx<'src, I, E>
         // two distinct zero-sized memoized parsers side by side
         G::MemoZst(_) => any().ignored().memoized().or(end().memoized()).to(Val::Unit).boxed(),
         G::Lazy(a) => b(a).lazy().boxed(),
-        G::Call(k) => cx.defs[*k].clone().boxed(),
+        G::Call(k) => cx.defs[*k].clone(),
         G::Boxed(a) => b(a).boxed(),
     }
 }
